@@ -4,6 +4,10 @@ import Hgxv.Proofs.C06Hgr
 import Hgxv.Proofs.C06Hif
 import Hgxv.Proofs.C06Hif2
 import Hgxv.Proofs.C06Hif3
+import Hgxv.Proofs.C06LinkH
+import Hgxv.Proofs.C06LinkD
+import Hgxv.Proofs.C06LinkT
+import Hgxv.Proofs.C06LinkM
 /-! # C06 — save then load returns the same hypergraph, for every type and format
 
 Property theorems about the model `Hgxv/Model/C06.lean` (+ `C06Hif.lean`).  A `Content κ` is what the
@@ -349,3 +353,458 @@ example : (readHif exDoc).map (fun r => r.c.edges.map (fun e => e.2.2)) = some [
 example : (readHif exDoc).map (fun r => r.empties) = some [(73, 2)] := by decide
 example : (readHif exDoc).map (fun r => r.incid) =
     some [(([0, 1], 0), 4), (([0, 1], 1), 3)] := by decide
+
+/-! ## Links to the full container models (C01 … C04)
+
+The content-level `addNode` / `addEdge` above (the ones `load` goes through) are not a private invention of this
+file: they are the `add_node` / `add_edge` of the abstract specifications `C0x.Spec` of the four complete container
+models, which `C01_refines … C04_refines` prove equal to the id-indexed stores for every history.
+`Proofs/C06Link*.lean`: `ofSpec0x : C0x.Spec → Content κ` reads a spec state as a content (node labels, keys,
+weights unchanged; a token dict `List (Nat × Nat)` read through the numbering `decKey` / `decVal` of C06's metadata
+vocabulary, a bijection — `C06_link_onto`: every content is such a reading); `specX : SpecOps κ C0x.Spec` are the
+spec's own constructor / `add_node` / `add_edge` (`C06_link_ops_X` shows them), `SpecOps.replay` is `load_hypergraph`
+written with them; `storeX : SpecOps κ StoreX` are the same three entry points of the ID-INDEXED model on stores carrying
+their invariant (`StoreX = {s // C0x.Inv s}`), linked for hyperedges that satisfy that model's quantifier (`okKey`).
+`ReachableX s`: `s` is an object of the full model after some history of public calls that
+satisfy that model's quantifier (`WF`: hyperedges are node sets; C02: non-empty disjoint sides). -/
+
+def C06.ReachableH (s : C01.Store) : Prop :=
+  ∃ (k : Nat) (cs : List C01.Cmd), (∀ c ∈ cs, c.WF) ∧ s ∈ C01.run (C01.init k) cs
+def C06.ReachableD (s : C02.Store) : Prop :=
+  ∃ (cs : List C02.Cmd) (slot : Nat), (∀ c ∈ cs, c.WF) ∧ AL.get? (C02.runCmds [] cs) slot = some s
+def C06.ReachableT (s : C03.Store) : Prop :=
+  ∃ (ops : List C03.Op) (i : Nat), (∀ op ∈ ops, op.WF) ∧ AL.get? (C03.run [] ops) i = some s
+def C06.ReachableM (s : C04.Store) : Prop :=
+  ∃ (w : Bool) (hm : C04.HMeta) (ops : List C04.Op), (∀ op ∈ ops, op.WF) ∧ s = C04.run (C04.init w hm) ops
+
+/-- every content is the reading of a spec state, for the four types: C06's theorems about all (well-formed) contents
+are statements about all (well-formed) spec states -/
+theorem C06_link_onto :
+    (∀ c : Content HKey, ∃ a : C01.Spec, ofSpec01 a = c) ∧ (∀ c : Content DKey, ∃ a : C02.Spec, ofSpec02 a = c) ∧
+    (∀ c : Content TKey, ∃ a : C03.Spec, ofSpec03 a = c) ∧ (∀ c : Content MKey, ∃ a : C04.Spec, ofSpec04 a = c) :=
+  ⟨ofSpec01_onto, ofSpec02_onto, ofSpec03_onto, ofSpec04_onto⟩
+
+/-- the constructors: a fresh spec state reads as `construct κ w`, except for the hypergraph-metadata dict, where each
+model has its own token names for `{"weighted": w, "type": <class>}` (C06: keys `user 0/1`, values `tok 0/1`, `tok 2+i`);
+`load` overwrites that dict with the saved one, so the difference never reaches a loaded object -/
+theorem C06_link_constructor (w : Bool) :
+    ofSpec01 (C01.Spec.new w []) = setHMeta (construct HKey w) (decMeta (C01.initHMeta w [])) ∧
+    ofSpec02 (C02.Spec.ctor w none none none none none).1 = setHMeta (construct DKey w) (decMeta (C02.ctorHMeta none w)) ∧
+    ofSpec03 (C03.Spec.new w) = setHMeta (construct TKey w) (decMeta (C03.Spec.new w).hmeta) ∧
+    ofSpec04 (C04.Spec.init w []) = setHMeta (construct MKey w) (decMeta (C04.Spec.init w []).hmeta) :=
+  ⟨rfl, rfl, rfl, rfl⟩
+
+/-! ### Hypergraph (C01) -/
+
+/-- what `specH` is made of: `C01.Spec`'s own operations -/
+theorem C06_link_ops_H (w : Bool) (hm md : TMeta) (a : C01.Spec) (n : Nat) (k : HKey) (wt : Option Int) :
+    specH.of a = ofSpec01 a ∧
+    specH.new w hm = (C01.Spec.apply (C01.Spec.new w []) (.setHMeta hm)).1 ∧
+    specH.addNode a n md = (C01.Spec.apply a (.addNode n (some md))).1 ∧
+    specH.addEdge a k wt md = (match C01.Spec.apply a (.addEdge k.nodes wt (some md)) with
+      | (a', .ok) => some a'
+      | (_, .rej) => none) :=
+  ⟨rfl, rfl, rfl, rfl⟩
+
+/-- `add_node` on the spec of the full model is `addNode` on the content -/
+theorem C06_link_add_node_H (a : C01.Spec) (n : Nat) (md : Option C01.Meta) :
+    ofSpec01 (C01.Spec.apply a (.addNode n md)).1 = addNode (ofSpec01 a) n (md.map decMeta) :=
+  link_addNode01 a n md
+
+/-- `add_edge` on the spec of the full model is `addEdge` on the content: same verdict, same resulting content -/
+theorem C06_link_add_edge_H (a : C01.Spec) (raw : List Nat) (w : Option Int) (md : Option C01.Meta) :
+    addEdge (ofSpec01 a) ⟨raw⟩ w (md.map decMeta) =
+      match C01.Spec.apply a (.addEdge raw w md) with
+      | (a', .ok) => some (ofSpec01 a')
+      | (_, .rej) => none :=
+  link_addEdge01 a raw w md
+
+/-- the same one step below the spec, on the id-indexed tables of a reachable object (hyperedge = node set) -/
+theorem C06_link_store_H (s : C01.Store) (hr : ReachableH s) (n : Nat) (raw : List Nat) (hraw : raw.Nodup)
+    (w : Option Int) (md : Option C01.Meta) :
+    ofSpec01 (C01.abs (C01.apply s (.addNode n md)).1) = addNode (ofSpec01 (C01.abs s)) n (md.map decMeta) ∧
+    addEdge (ofSpec01 (C01.abs s)) ⟨raw⟩ w (md.map decMeta) =
+      match C01.apply s (.addEdge raw w md) with
+      | (s', .ok) => some (ofSpec01 (C01.abs s'))
+      | (_, .rej) => none := by
+  obtain ⟨k, cs, hwf, hs⟩ := hr
+  have h := C01.run_inv cs (C01.init k) hwf (C01.init_inv k) s hs
+  exact ⟨link_store_addNode01 s h n md, link_store_addEdge01 s h raw hraw w md⟩
+
+/-- the hypothesis `WF` of the round-trip theorems follows from the invariant of the full model -/
+theorem C06_link_wf_H (s : C01.Store) (hr : ReachableH s) : WF (ofSpec01 (C01.abs s)) := by
+  obtain ⟨k, cs, hwf, hs⟩ := hr
+  exact WF_ofSpec01_run k cs hwf s hs
+
+/-- `C06_json_roundtrip_H` for every reachable object of the full model -/
+theorem C06_link_roundtrip_H (s : C01.Store) (hr : ReachableH s) :
+    (loadAny (saveAny (.H (ofSpec01 (C01.abs s))))).map AnyContent.erased = some (.H (ofSpec01 (C01.abs s)).erased) :=
+  C06_json_roundtrip_H _ (C06_link_wf_H s hr)
+
+/-- `load_hypergraph` on any record list = replaying the records through `C01.Spec`'s constructor, `add_node`, `add_edge` -/
+theorem C06_link_load_H (rs : List Record) : load (κ := HKey) rs = (specH.replay rs).map ofSpec01 :=
+  specH.load_eq_replay rs (specH.okRecs_of_all (fun _ => trivial) _)
+
+/-- replaying what `save` wrote for a reachable object succeeds on the spec and ends in a state that shows the same
+content (hyperedge metadata modulo the reserved keys) and is well-formed again -/
+theorem C06_link_reload_H (s : C01.Store) (hr : ReachableH s) :
+    ∃ a1 : C01.Spec, specH.replay (save (ofSpec01 (C01.abs s))) = some a1 ∧
+      (ofSpec01 a1).erased = (ofSpec01 (C01.abs s)).erased ∧ WF (ofSpec01 a1) :=
+  specH.reload _ (C06_link_wf_H s hr) (fun _ _ => trivial)
+
+/-- `C06_json_loaded_add_edge` read on the full model: reload a reachable object, make one more accepted `add_edge` on
+the spec, and the result still round-trips -/
+theorem C06_link_loaded_add_edge_H (s : C01.Store) (hr : ReachableH s) (a1 a2 : C01.Spec)
+    (h1 : specH.replay (save (ofSpec01 (C01.abs s))) = some a1) (raw : List Nat) (w : Option Int) (md : Option C01.Meta)
+    (h2 : C01.Spec.apply a1 (.addEdge raw w md) = (a2, .ok)) :
+    (load (save (ofSpec01 a2))).map Content.erased = some (ofSpec01 a2).erased :=
+  C06_json_loaded_add_edge (ofSpec01 (C01.abs s)) (ofSpec01 a1) (ofSpec01 a2) (C06_link_wf_H s hr)
+    (by rw [C06_link_load_H, h1]; rfl) ⟨raw⟩ w (md.map decMeta) (by rw [C06_link_add_edge_H, h2])
+
+/-- `load_hypergraph` as a run of the ID-INDEXED model (`storeH`: `C01.Store.new`, `C01.apply` with `setHMeta` / `addNode` /
+`addEdge`, states = stores with their invariant `C01.Inv`): for every record list whose hyperedge records are node sets
+(`storeH.okRecs`: duplicate-free node lists, the quantifier under which C01 proves its refinement) -/
+theorem C06_link_store_load_H (rs : List Record) (h : storeH.okRecs (edgeRecs rs)) :
+    load (κ := HKey) rs = (storeH.replay rs).map (fun s => ofSpec01 (C01.abs s.1)) :=
+  storeH.load_eq_replay rs h
+
+/-- the records saved from a reachable object, replayed on the id-indexed model, build an object `s1` of that model
+(tables + invariant, `s1 : StoreH`) whose abstraction shows the same content modulo the reserved keys -/
+theorem C06_link_store_reload_H (s : C01.Store) (hr : ReachableH s) :
+    ∃ s1 : StoreH, storeH.replay (save (ofSpec01 (C01.abs s))) = some s1 ∧
+      (ofSpec01 (C01.abs s1.1)).erased = (ofSpec01 (C01.abs s)).erased := by
+  have hw := C06_link_wf_H s hr
+  obtain ⟨k, cs, hwf, hs⟩ := hr
+  obtain ⟨a, h1, h2, _⟩ := storeH.reload _ hw (okKeys01 s (C01.run_inv cs (C01.init k) hwf (C01.init_inv k) s hs))
+  exact ⟨a, h1, h2⟩
+
+/-- non-vacuity: a history with a permuted re-insertion, a removal, a node with metadata, user metadata under the
+reserved key `weight` (token 0 = `weight`, 16 = `tok 4`) -/
+def C06.exHistH : List C01.Cmd :=
+  [.new 0 true [], .on 0 (.addEdge [3, 1, 2] (some 8) (some [(5, 8)])), .on 0 (.addNode 9 (some [(4, 12)])),
+   .on 0 (.addEdge [2, 1] none none), .on 0 (.removeEdge [1, 2]), .on 0 (.addEdge [1, 2, 3] (some 4) none),
+   .on 0 (.addEdge [9, 2] none (some [(0, 16)]))]
+
+theorem C06.exHistH_wf : ∀ c ∈ exHistH, c.WF := by
+  intro c hc
+  simp only [exHistH, List.mem_cons, List.not_mem_nil, or_false] at hc
+  rcases hc with h | h | h | h | h | h | h <;> subst h <;> simp [C01.Cmd.WF, C01.Op.WF]
+
+example : ∃ s, ReachableH s ∧
+    (ofSpec01 (C01.abs s)).nodes = [(1, []), (2, []), (3, []), (9, [(.user 1, .tok 3)])] ∧
+    (ofSpec01 (C01.abs s)).edges = [(⟨[1, 2, 3]⟩, (12, [])), (⟨[2, 9]⟩, (4, [(.weight, .tok 4)]))] := by
+  have h : ∃ s ∈ C01.run (C01.init 1) exHistH,
+      (ofSpec01 (C01.abs s)).nodes = [(1, []), (2, []), (3, []), (9, [(.user 1, .tok 3)])] ∧
+      (ofSpec01 (C01.abs s)).edges = [(⟨[1, 2, 3]⟩, (12, [])), (⟨[2, 9]⟩, (4, [(.weight, .tok 4)]))] := by decide
+  obtain ⟨s, hs, h1⟩ := h
+  exact ⟨s, ⟨1, exHistH, exHistH_wf, hs⟩, h1⟩
+/-- its saved records replayed on `C01.Spec`: same keys and weights; the metadata now carries what `save` wrote under
+`weight` (token 0; 99 = `wq 12`, 35 = `wq 4`), the user entry under that key is overwritten (the comparison erases it) -/
+example : ∃ s ∈ C01.run (C01.init 1) exHistH,
+    (specH.replay (save (ofSpec01 (C01.abs s)))).map (fun (a : C01.Spec) => a.edges.map (fun e => (e.1, e.2.1))) =
+      some [([1, 2, 3], 12), ([2, 9], 4)] ∧
+    (specH.replay (save (ofSpec01 (C01.abs s)))).map (fun (a : C01.Spec) => a.edges.map (fun e => e.2.2)) =
+      some [[(0, 99)], [(0, 35)]] := by decide
+/-- a rejected call is rejected on both sides -/
+example : (C01.Spec.apply (C01.Spec.new false []) (.addEdge [1, 2] (some 8) none)).2 = .rej ∧
+    addEdge (ofSpec01 (C01.Spec.new false [])) ⟨[1, 2]⟩ (some 8) none = none := by decide
+
+/-- … and replayed on the id-indexed tables: the saved object had ids 0 and 2 (id 1 was removed, `_next_edge_id` = 3), the
+loaded one has ids 0, 1 and `_next_edge_id` = 2, with its adjacency lists -/
+example : ∃ s ∈ C01.run (C01.init 1) exHistH, s.edgeList = [([1, 2, 3], 0), ([2, 9], 2)] ∧ s.nextId = 3 ∧
+    (storeH.replay (save (ofSpec01 (C01.abs s)))).map (fun (s1 : StoreH) => s1.1.edgeList) =
+      some [([1, 2, 3], 0), ([2, 9], 1)] ∧
+    (storeH.replay (save (ofSpec01 (C01.abs s)))).map (fun (s1 : StoreH) => s1.1.nextId) = some 2 ∧
+    (storeH.replay (save (ofSpec01 (C01.abs s)))).map (fun (s1 : StoreH) => s1.1.adj) =
+      some [(1, [0]), (2, [0, 1]), (3, [0]), (9, [1])] := by decide
+
+/-! ### DirectedHypergraph (C02) -/
+
+theorem C06_link_ops_D (w : Bool) (hm md : TMeta) (a : C02.Spec) (n : Nat) (k : DKey) (wt : Option Int) :
+    specD.of a = ofSpec02 a ∧
+    specD.new w hm = (C02.Spec.applyOp (C02.Spec.ctor w none none none none none).1 (.setHMeta hm)).1 ∧
+    specD.addNode a n md = (C02.Spec.applyOp a (.addNode n (some md))).1 ∧
+    specD.addEdge a k wt md = (match C02.Spec.applyOp a (.addEdge (.ofLists k.src k.tgt) wt (some md)) with
+      | (a', .ok) => some a'
+      | (_, .rej) => none) :=
+  ⟨rfl, rfl, rfl, rfl⟩
+
+theorem C06_link_add_node_D (a : C02.Spec) (n : Nat) (md : Option C02.Meta) :
+    ofSpec02 (C02.Spec.applyOp a (.addNode n md)).1 = addNode (ofSpec02 a) n (md.map decMeta) :=
+  link_addNode02 a n md
+
+/-- a side given as an iterable or as a bare node (`Side.scalar`, accepted by `add_edge` only) -/
+theorem C06_link_add_edge_D (a : C02.Spec) (e : C02.RawEdge) (w : Option Int) (md : Option C02.Meta) :
+    addEdge (ofSpec02 a) ⟨e.src.toList, e.tgt.toList⟩ w (md.map decMeta) =
+      match C02.Spec.applyOp a (.addEdge e w md) with
+      | (a', .ok) => some (ofSpec02 a')
+      | (_, .rej) => none :=
+  link_addEdge02 a e w md
+
+theorem C06_link_wf_D (s : C02.Store) (hr : ReachableD s) : WF (ofSpec02 (C02.abs s)) := by
+  obtain ⟨cs, slot, hcs, hs⟩ := hr
+  exact WF_ofSpec02_run cs hcs slot s hs
+
+/-- one step on the id-indexed tables of a reachable object (`RawWF`: duplicate-free, disjoint, non-empty sides) -/
+theorem C06_link_store_D (s : C02.Store) (hr : ReachableD s) (n : Nat) (e : C02.RawEdge) (he : C02.RawWF e)
+    (w : Option Int) (md : Option C02.Meta) :
+    ofSpec02 (C02.abs (C02.applyOp s (.addNode n md)).1) = addNode (ofSpec02 (C02.abs s)) n (md.map decMeta) ∧
+    addEdge (ofSpec02 (C02.abs s)) ⟨e.src.toList, e.tgt.toList⟩ w (md.map decMeta) =
+      match C02.applyOp s (.addEdge e w md) with
+      | (s', .ok) => some (ofSpec02 (C02.abs s'))
+      | (_, .rej) => none := by
+  obtain ⟨cs, slot, hcs, hs⟩ := hr
+  have h0 : C02.StateInv [] := fun _ _ h => by simp [AL.get?] at h
+  have o0 : C02.StateOrd [] := fun _ _ h => by simp [AL.get?] at h
+  have u0 : C02.StateUnw [] := fun _ _ h => by simp [AL.get?] at h
+  obtain ⟨hi, ho, _⟩ := C02.runCmds_all [] cs hcs h0 o0 u0
+  exact ⟨link_store_addNode02 s (hi slot s hs) (ho slot s hs) n md,
+    link_store_addEdge02 s (hi slot s hs) (ho slot s hs) e he w md⟩
+
+theorem C06_link_roundtrip_D (s : C02.Store) (hr : ReachableD s) :
+    (loadAny (saveAny (.D (ofSpec02 (C02.abs s))))).map AnyContent.erased = some (.D (ofSpec02 (C02.abs s)).erased) :=
+  C06_json_roundtrip_D _ (C06_link_wf_D s hr)
+
+theorem C06_link_load_D (rs : List Record) : load (κ := DKey) rs = (specD.replay rs).map ofSpec02 :=
+  specD.load_eq_replay rs (specD.okRecs_of_all (fun _ => trivial) _)
+
+theorem C06_link_reload_D (s : C02.Store) (hr : ReachableD s) :
+    ∃ a1 : C02.Spec, specD.replay (save (ofSpec02 (C02.abs s))) = some a1 ∧
+      (ofSpec02 a1).erased = (ofSpec02 (C02.abs s)).erased ∧ WF (ofSpec02 a1) :=
+  specD.reload _ (C06_link_wf_D s hr) (fun _ _ => trivial)
+
+theorem C06_link_loaded_add_edge_D (s : C02.Store) (hr : ReachableD s) (a1 a2 : C02.Spec)
+    (h1 : specD.replay (save (ofSpec02 (C02.abs s))) = some a1) (e : C02.RawEdge) (w : Option Int) (md : Option C02.Meta)
+    (h2 : C02.Spec.applyOp a1 (.addEdge e w md) = (a2, .ok)) :
+    (load (save (ofSpec02 a2))).map Content.erased = some (ofSpec02 a2).erased :=
+  C06_json_loaded_add_edge (ofSpec02 (C02.abs s)) (ofSpec02 a1) (ofSpec02 a2) (C06_link_wf_D s hr)
+    (by rw [C06_link_load_D, h1]; rfl) ⟨e.src.toList, e.tgt.toList⟩ w (md.map decMeta)
+    (by rw [C06_link_add_edge_D, h2])
+
+/-- `load_hypergraph` as a run of the id-indexed model (`storeD`: `C02.ctor`, `C02.applyOp`; states = stores with `C02.Inv`
+and `C02.Ord`), for record lists whose hyperedges have duplicate-free, disjoint, non-empty sides (`C02.RawWF`) -/
+theorem C06_link_store_load_D (rs : List Record) (h : storeD.okRecs (edgeRecs rs)) :
+    load (κ := DKey) rs = (storeD.replay rs).map (fun s => ofSpec02 (C02.abs s.1)) :=
+  storeD.load_eq_replay rs h
+
+theorem C06_link_store_reload_D (s : C02.Store) (hr : ReachableD s) :
+    ∃ s1 : StoreD, storeD.replay (save (ofSpec02 (C02.abs s))) = some s1 ∧
+      (ofSpec02 (C02.abs s1.1)).erased = (ofSpec02 (C02.abs s)).erased := by
+  have hw := C06_link_wf_D s hr
+  obtain ⟨cs, slot, hcs, hs⟩ := hr
+  have hi := C02.runCmds_inv [] cs hcs (fun _ _ h => by simp [AL.get?] at h) slot s hs
+  obtain ⟨a, h1, h2, _⟩ := storeD.reload _ hw (okKeys02 s hi)
+  exact ⟨a, h1, h2⟩
+
+/-- non-vacuity: constructor with a hyperedge and node metadata, a permuted re-insertion (6 + 2), a bare-node source,
+an insertion that is removed again (its node 4 stays) -/
+def C06.exHistD : List C02.Cmd :=
+  [.new 0 true none (some [(7, [(4, 12)])]) (some [.ofLists [2, 1] [3]]) (some [6]) none,
+   .op 0 (.addEdge (.ofLists [1, 2] [3]) (some 2) (some [(5, 8)])),
+   .op 0 (.addEdge ⟨.scalar 3, .nodes [2, 1]⟩ none none),
+   .op 0 (.addEdge (.ofLists [4] [1]) none none), .op 0 (.removeEdge (.ofLists [4] [1]))]
+
+example : ∃ s, ReachableD s ∧
+    (ofSpec02 (C02.abs s)).nodes = [(7, [(.user 1, .tok 3)]), (1, []), (2, []), (3, []), (4, [])] ∧
+    (ofSpec02 (C02.abs s)).edges = [(⟨[1, 2], [3]⟩, (8, [(.user 2, .tok 2)])), (⟨[3], [1, 2]⟩, (4, []))] :=
+  ⟨(AL.get? (C02.runCmds [] exHistD) 0).getD {}, ⟨exHistD, 0, C02.cmds_WF_of_ok _ (by decide), by decide⟩,
+    by decide, by decide⟩
+example : (AL.get? (C02.runCmds [] exHistD) 0).bind (fun s => (specD.replay (save (ofSpec02 (C02.abs s)))).map
+      (fun (a : C02.Spec) => a.edges.map (fun e => (e.1, e.2.1)))) = some [(([1, 2], [3]), 8), (([3], [1, 2]), 4)] := by
+  decide
+
+example : (AL.get? (C02.runCmds [] exHistD) 0).bind (fun s => (storeD.replay (save (ofSpec02 (C02.abs s)))).map
+      (fun (s1 : StoreD) => (s1.1.nextId, s1.1.adjS, s1.1.adjT))) =
+    some (2, [(7, []), (1, [0]), (2, [0]), (3, [1]), (4, [])], [(7, []), (1, [1]), (2, [1]), (3, [0]), (4, [])]) := by
+  decide
+
+/-! ### TemporalHypergraph (C03) -/
+
+theorem C06_link_ops_T (w : Bool) (hm md : TMeta) (a : C03.Spec) (n : Nat) (k : TKey) (wt : Option Int) :
+    specT.of a = ofSpec03 a ∧
+    specT.new w hm = (C03.Spec.applyOp (C03.Spec.new w) (.setHMeta hm)).1 ∧
+    specT.addNode a n md = (C03.Spec.applyOp a (.addNode n (some md))).1 ∧
+    specT.addEdge a k wt md = (match C03.Spec.applyOp a (.addEdge k.nodes (.int k.time) wt (some md)) with
+      | (a', .ok) => some a'
+      | (_, .rej) => none) :=
+  ⟨rfl, rfl, rfl, rfl⟩
+
+theorem C06_link_add_node_T (a : C03.Spec) (n : Nat) (md : Option C03.Meta) :
+    ofSpec03 (C03.Spec.applyOp a (.addNode n md)).1 = addNode (ofSpec03 a) n (md.map decMeta) :=
+  link_addNode03 a n md
+
+/-- for a time `t ≥ 0` (a C06 key carries a natural number; `C03.Spec.addEdge` rejects every other time argument, and
+`load` fails on a record without a readable time: `readKey`) -/
+theorem C06_link_add_edge_T (a : C03.Spec) (raw : List Nat) (t : Nat) (w : Option Int) (md : Option C03.Meta) :
+    addEdge (ofSpec03 a) ⟨t, raw⟩ w (md.map decMeta) =
+      match C03.Spec.applyOp a (.addEdge raw (.int t) w md) with
+      | (a', .ok) => some (ofSpec03 a')
+      | (_, .rej) => none :=
+  link_addEdge03 a raw t w md
+
+theorem C06_link_wf_T (s : C03.Store) (hr : ReachableT s) : WF (ofSpec03 (C03.abs s)) := by
+  obtain ⟨ops, i, hwf, hi⟩ := hr
+  exact WF_ofSpec03_reachable s ⟨ops, hwf, i, hi⟩
+
+theorem C06_link_store_T (s : C03.Store) (hr : ReachableT s) (n : Nat) (raw : List Nat) (hraw : raw.Nodup) (t : Nat)
+    (w : Option Int) (md : Option C03.Meta) :
+    ofSpec03 (C03.abs (C03.applyOp s (.addNode n md)).1) = addNode (ofSpec03 (C03.abs s)) n (md.map decMeta) ∧
+    addEdge (ofSpec03 (C03.abs s)) ⟨t, raw⟩ w (md.map decMeta) =
+      match C03.applyOp s (.addEdge raw (.int t) w md) with
+      | (s', .ok) => some (ofSpec03 (C03.abs s'))
+      | (_, .rej) => none := by
+  obtain ⟨ops, i, hwf, hi⟩ := hr
+  have h := C03.reachable_inv ⟨ops, hwf, i, hi⟩
+  exact ⟨link_store_addNode03 s h n md, link_store_addEdge03 s h raw hraw t w md⟩
+
+theorem C06_link_roundtrip_T (s : C03.Store) (hr : ReachableT s) :
+    (loadAny (saveAny (.T (ofSpec03 (C03.abs s))))).map AnyContent.erased = some (.T (ofSpec03 (C03.abs s)).erased) :=
+  C06_json_roundtrip_T _ (C06_link_wf_T s hr)
+
+theorem C06_link_load_T (rs : List Record) : load (κ := TKey) rs = (specT.replay rs).map ofSpec03 :=
+  specT.load_eq_replay rs (specT.okRecs_of_all (fun _ => trivial) _)
+
+theorem C06_link_reload_T (s : C03.Store) (hr : ReachableT s) :
+    ∃ a1 : C03.Spec, specT.replay (save (ofSpec03 (C03.abs s))) = some a1 ∧
+      (ofSpec03 a1).erased = (ofSpec03 (C03.abs s)).erased ∧ WF (ofSpec03 a1) :=
+  specT.reload _ (C06_link_wf_T s hr) (fun _ _ => trivial)
+
+theorem C06_link_loaded_add_edge_T (s : C03.Store) (hr : ReachableT s) (a1 a2 : C03.Spec)
+    (h1 : specT.replay (save (ofSpec03 (C03.abs s))) = some a1) (raw : List Nat) (t : Nat) (w : Option Int)
+    (md : Option C03.Meta) (h2 : C03.Spec.applyOp a1 (.addEdge raw (.int t) w md) = (a2, .ok)) :
+    (load (save (ofSpec03 a2))).map Content.erased = some (ofSpec03 a2).erased :=
+  C06_json_loaded_add_edge (ofSpec03 (C03.abs s)) (ofSpec03 a1) (ofSpec03 a2) (C06_link_wf_T s hr)
+    (by rw [C06_link_load_T, h1]; rfl) ⟨t, raw⟩ w (md.map decMeta) (by rw [C06_link_add_edge_T, h2])
+
+/-- `load_hypergraph` as a run of the id-indexed model (`storeT`: `C03.Store.new`, `C03.applyOp`; states = stores with
+`C03.Inv`), for record lists whose hyperedge records are node sets -/
+theorem C06_link_store_load_T (rs : List Record) (h : storeT.okRecs (edgeRecs rs)) :
+    load (κ := TKey) rs = (storeT.replay rs).map (fun s => ofSpec03 (C03.abs s.1)) :=
+  storeT.load_eq_replay rs h
+
+theorem C06_link_store_reload_T (s : C03.Store) (hr : ReachableT s) :
+    ∃ s1 : StoreT, storeT.replay (save (ofSpec03 (C03.abs s))) = some s1 ∧
+      (ofSpec03 (C03.abs s1.1)).erased = (ofSpec03 (C03.abs s)).erased := by
+  have hw := C06_link_wf_T s hr
+  obtain ⟨ops, i, hwf, hi⟩ := hr
+  obtain ⟨a, h1, h2, _⟩ := storeT.reload _ hw (okKeys03 s (C03.reachable_inv ⟨ops, hwf, i, hi⟩))
+  exact ⟨a, h1, h2⟩
+
+/-- non-vacuity: the same node set at two times, a re-insertion (6 + 2), a node added between two hyperedges, a record
+removed again (its node 3 stays) -/
+def C06.exHistT : List C03.Op :=
+  [.new 0 true, .on 0 (.addEdge [2, 1] (.int 5) (some 6) (some [(5, 8)])), .on 0 (.addEdge [1, 2] (.int 0) none none),
+   .on 0 (.addNode 7 (some [(4, 12)])), .on 0 (.addEdge [1, 2] (.int 5) (some 2) none),
+   .on 0 (.addEdge [3] (.int 2) none none), .on 0 (.removeEdge [3] (.int 2))]
+
+example : ∃ s, ReachableT s ∧
+    (ofSpec03 (C03.abs s)).nodes = [(1, []), (2, []), (7, [(.user 1, .tok 3)]), (3, [])] ∧
+    (ofSpec03 (C03.abs s)).edges = [(⟨5, [1, 2]⟩, (8, [])), (⟨0, [1, 2]⟩, (4, []))] :=
+  ⟨(AL.get? (C03.run [] exHistT) 0).getD { weighted := false }, ⟨exHistT, 0, by decide, by decide⟩, by decide, by decide⟩
+/-- replayed on `C03.Spec`: the metadata carries `weight` (token 0) and `time` (token 1; 21 = `tm 5`, 1 = `tm 0`) -/
+example : (AL.get? (C03.run [] exHistT) 0).bind (fun s => (specT.replay (save (ofSpec03 (C03.abs s)))).map
+      (fun (a : C03.Spec) => a.recs.map (fun e => e.2.2))) = some [[(0, 67), (1, 21)], [(0, 35), (1, 1)]] := by decide
+/-- a time that is not a non-negative integer is rejected by the spec; no C06 key has such a time -/
+example : (C03.Spec.applyOp (C03.Spec.new true) (.addEdge [1, 2] (.int (-1)) none none)).2 = .rej ∧
+    (C03.Spec.applyOp (C03.Spec.new true) (.addEdge [1, 2] .bad none none)).2 = .rej := by decide
+
+example : (AL.get? (C03.run [] exHistT) 0).bind (fun s => (storeT.replay (save (ofSpec03 (C03.abs s)))).map
+      (fun (s1 : StoreT) => s1.1.edgeList)) = some [((5, [1, 2]), 0), ((0, [1, 2]), 1)] ∧
+    (AL.get? (C03.run [] exHistT) 0).bind (fun s => (storeT.replay (save (ofSpec03 (C03.abs s)))).map
+      (fun (s1 : StoreT) => s1.1.adj)) = some [(1, [0, 1]), (2, [0, 1]), (7, []), (3, [])] := by decide
+
+/-! ### MultiplexHypergraph (C04) -/
+
+theorem C06_link_ops_M (w : Bool) (hm md : TMeta) (a : C04.Spec) (n : Nat) (k : MKey) (wt : Option Int) :
+    specM.of a = ofSpec04 a ∧
+    specM.new w hm = (C04.Spec.step (C04.Spec.init w []) (.setHMeta hm)).1 ∧
+    specM.addNode a n md = (C04.Spec.step a (.addNode n (some md))).1 ∧
+    specM.addEdge a k wt md = (match C04.Spec.step a (.addEdge k.nodes k.layer wt (some md)) with
+      | (a', .ok) => some a'
+      | (_, .rej) => none) :=
+  ⟨rfl, rfl, rfl, rfl⟩
+
+theorem C06_link_add_node_M (a : C04.Spec) (n : Nat) (md : Option C04.Meta) :
+    ofSpec04 (C04.Spec.step a (.addNode n md)).1 = addNode (ofSpec04 a) n (md.map decMeta) :=
+  link_addNode04 a n md
+
+theorem C06_link_add_edge_M (a : C04.Spec) (raw : List Nat) (l : Nat) (w : Option Int) (md : Option C04.Meta) :
+    addEdge (ofSpec04 a) ⟨raw, l⟩ w (md.map decMeta) =
+      match C04.Spec.step a (.addEdge raw l w md) with
+      | (a', .ok) => some (ofSpec04 a')
+      | (_, .rej) => none :=
+  link_addEdge04 a raw l w md
+
+theorem C06_link_wf_M (s : C04.Store) (hr : ReachableM s) : WF (ofSpec04 (C04.abs s)) := by
+  obtain ⟨w, hm, ops, hw, rfl⟩ := hr
+  exact WF_ofSpec04_run w hm ops hw
+
+theorem C06_link_store_M (s : C04.Store) (hr : ReachableM s) (n : Nat) (raw : List Nat) (hraw : raw.Nodup) (l : Nat)
+    (w : Option Int) (md : Option C04.Meta) :
+    ofSpec04 (C04.abs (C04.step s (.addNode n md)).1) = addNode (ofSpec04 (C04.abs s)) n (md.map decMeta) ∧
+    addEdge (ofSpec04 (C04.abs s)) ⟨raw, l⟩ w (md.map decMeta) =
+      match C04.step s (.addEdge raw l w md) with
+      | (s', .ok) => some (ofSpec04 (C04.abs s'))
+      | (_, .rej) => none := by
+  obtain ⟨w0, hm, ops, hw, rfl⟩ := hr
+  have h := C04.run_inv _ ops (C04.inv_init w0 hm) hw
+  exact ⟨link_store_addNode04 _ h n md, link_store_addEdge04 _ h raw hraw l w md⟩
+
+theorem C06_link_roundtrip_M (s : C04.Store) (hr : ReachableM s) :
+    (loadAny (saveAny (.M (ofSpec04 (C04.abs s))))).map AnyContent.erased = some (.M (ofSpec04 (C04.abs s)).erased) :=
+  C06_json_roundtrip_M _ (C06_link_wf_M s hr)
+
+theorem C06_link_load_M (rs : List Record) : load (κ := MKey) rs = (specM.replay rs).map ofSpec04 :=
+  specM.load_eq_replay rs (specM.okRecs_of_all (fun _ => trivial) _)
+
+theorem C06_link_reload_M (s : C04.Store) (hr : ReachableM s) :
+    ∃ a1 : C04.Spec, specM.replay (save (ofSpec04 (C04.abs s))) = some a1 ∧
+      (ofSpec04 a1).erased = (ofSpec04 (C04.abs s)).erased ∧ WF (ofSpec04 a1) :=
+  specM.reload _ (C06_link_wf_M s hr) (fun _ _ => trivial)
+
+theorem C06_link_loaded_add_edge_M (s : C04.Store) (hr : ReachableM s) (a1 a2 : C04.Spec)
+    (h1 : specM.replay (save (ofSpec04 (C04.abs s))) = some a1) (raw : List Nat) (l : Nat) (w : Option Int)
+    (md : Option C04.Meta) (h2 : C04.Spec.step a1 (.addEdge raw l w md) = (a2, .ok)) :
+    (load (save (ofSpec04 a2))).map Content.erased = some (ofSpec04 a2).erased :=
+  C06_json_loaded_add_edge (ofSpec04 (C04.abs s)) (ofSpec04 a1) (ofSpec04 a2) (C06_link_wf_M s hr)
+    (by rw [C06_link_load_M, h1]; rfl) ⟨raw, l⟩ w (md.map decMeta) (by rw [C06_link_add_edge_M, h2])
+
+/-- `load_hypergraph` as a run of the id-indexed model (`storeM`: `C04.init`, `C04.step`; states = stores with `C04.Inv`),
+for record lists whose hyperedge records are node sets -/
+theorem C06_link_store_load_M (rs : List Record) (h : storeM.okRecs (edgeRecs rs)) :
+    load (κ := MKey) rs = (storeM.replay rs).map (fun s => ofSpec04 (C04.abs s.1)) :=
+  storeM.load_eq_replay rs h
+
+theorem C06_link_store_reload_M (s : C04.Store) (hr : ReachableM s) :
+    ∃ s1 : StoreM, storeM.replay (save (ofSpec04 (C04.abs s))) = some s1 ∧
+      (ofSpec04 (C04.abs s1.1)).erased = (ofSpec04 (C04.abs s)).erased := by
+  have hw := C06_link_wf_M s hr
+  obtain ⟨w, hm, ops, hops, rfl⟩ := hr
+  obtain ⟨a, h1, h2, _⟩ := storeM.reload _ hw (okKeys04 _ (C04.run_inv _ ops (C04.inv_init w hm) hops))
+  exact ⟨a, h1, h2⟩
+
+/-- non-vacuity: the same node set in two layers, a re-insertion that replaces the metadata, a node added between two
+hyperedges, a record in a third layer that is removed again -/
+def C06.exOpsM : List C04.Op :=
+  [.addEdge [2, 1] 0 none (some [(5, 8)]), .addEdge [1, 2] 1 none none, .addNode 5 (some [(4, 12)]),
+   .addEdge [1, 2] 0 none none, .addEdge [3] 2 none none, .removeEdge [3] 2]
+
+theorem C06.exOpsM_wf : ∀ op ∈ exOpsM, op.WF := by
+  intro c hc
+  simp only [exOpsM, List.mem_cons, List.not_mem_nil, or_false] at hc
+  rcases hc with h | h | h | h | h | h <;> subst h <;> simp [C04.Op.WF]
+
+example : ReachableM (C04.run (C04.init false []) exOpsM) ∧
+    (ofSpec04 (C04.abs (C04.run (C04.init false []) exOpsM))).nodes = [(1, []), (2, []), (5, [(.user 1, .tok 3)]), (3, [])] ∧
+    (ofSpec04 (C04.abs (C04.run (C04.init false []) exOpsM))).edges = [(⟨[1, 2], 0⟩, (4, [])), (⟨[1, 2], 1⟩, (4, []))] :=
+  ⟨⟨false, [], exOpsM, exOpsM_wf, rfl⟩, by decide, by decide⟩
+/-- replayed on `C04.Spec`: the metadata carries `layer` (token 2; 2 = `lay 0`, 6 = `lay 1`); the layer REGISTRY of the
+replayed state lists the layers that hold a record, the saved object's registry also had layer 2 (`_existing_layers` is
+not part of a JSON file - as on the real code; the binary path keeps it, `C06_hgx_roundtrip`) -/
+example : (specM.replay (save (ofSpec04 (C04.abs (C04.run (C04.init false []) exOpsM))))).map
+      (fun (a : C04.Spec) => (a.edges.map (fun e => e.2.2), a.layers)) = some ([[(2, 2)], [(2, 6)]], [0, 1]) ∧
+    (C04.run (C04.init false []) exOpsM).layers = [0, 1, 2] := by decide
+example : (storeM.replay (save (ofSpec04 (C04.abs (C04.run (C04.init false []) exOpsM))))).map
+      (fun (s1 : StoreM) => s1.1.edgeList) = some [(([1, 2], 0), 0), (([1, 2], 1), 1)] ∧
+    (storeM.replay (save (ofSpec04 (C04.abs (C04.run (C04.init false []) exOpsM))))).map
+      (fun (s1 : StoreM) => s1.1.adj) = some [(1, [0, 1]), (2, [0, 1]), (5, []), (3, [])] := by decide
